@@ -1,12 +1,12 @@
-\* C06/C20 thorough: 5 base coins incl. a coinbase (maturity 2), <= 2 created transactions, <= 3 blocks,
-\* every backend answer class; outpoint locks and leases on coin 1.
+\* C06/C20 thorough: 5 base coins incl. a coinbase (maturity 2), <= 2 created transactions (incl. self-payments), <= 2 blocks,
+\* every backend answer class; outpoint locks on coin 1 (leases: in the random walks; with them and a third block the state graph has ~4e8 transitions).
 CONSTANTS
   NBase = 5
   MaxSends = 2
-  MaxTip = 3
+  MaxTip = 2
   Mat = 2
   Answers = {"accepted", "inmempool", "rejected", "notifyfail1", "notifyfail2", "badlabel"}
-  Acts = {"Receive", "Mine", "Lock", "Lease", "Send", "SendExplicit", "SendSelf", "FundOwn", "DryRun", "Restart", "RestartRej"}
+  Acts = {"Receive", "Mine", "Lock", "Send", "SendExplicit", "SendSelf", "FundOwn", "DryRun", "Restart", "RestartRej"}
   LockCoins = {1}
   MaxHist = 40
   FullHist = FALSE
